@@ -106,6 +106,28 @@ async def scenario(loop, rnd, w, spec, stats):
         await pool.prune_inactive_connections(db)
         w.check_bound('prune(%s)' % db)
     ptasks = [loop.create_task(pruner(at, db)) for at, db in spec.get('prunes', [])]
+    if spec.get('script'):
+        # one driver task executing steps strictly one after the other (what a single server task does): ('acq', key, db) / ('rel', key) / ('prune', db) /
+        # ('sleep', t) / ('bg', key, db): start an acquire in the background / ('wait', key): the background acquire must complete, then release it
+        async def driver():
+            held = {}; bg = {}
+            async def acq(key, db):
+                stats['started'] += 1
+                c = await pool.acquire(db); w.events.append('script: got %r' % c)
+                if c.holder is not None or c.state != 'open' or c.db != db: w.fail('C15 lending', 'script was lent %r for %s' % (c, db))
+                c.holder = 'script:' + key; held[key] = (db, c); stats['served'] += 1
+            for st in spec['script']:
+                if st[0] == 'acq': await acq(st[1], st[2])
+                elif st[0] == 'rel':
+                    db, c = held.pop(st[1]); c.holder = None; w.events.append('script: releases %r' % c); pool.release(db, c); w.check_bound('script release')
+                elif st[0] == 'prune':
+                    w.events.append('script: prune_inactive_connections(%s)' % st[1]); await pool.prune_inactive_connections(st[1])
+                elif st[0] == 'sleep': await asyncio.sleep(st[1])
+                elif st[0] == 'bg': bg[st[1]] = loop.create_task(acq(st[1], st[2]))
+                elif st[0] == 'wait':
+                    await bg[st[1]]
+                    db, c = held.pop(st[1]); c.holder = None; pool.release(db, c)
+        tasks.append(loop.create_task(driver()))
     async def monitor():
         while True:
             await asyncio.sleep(0.0037)
@@ -151,6 +173,14 @@ def run_one(seed, spec=None):
     rnd = random.Random(seed); spec = spec or gen_spec(rnd)
     loop = VirtualLoop(); asyncio.set_event_loop(loop)
     pool_mod.time = FakeTime(loop)
+    # an exception escaping from one of the pool's own callbacks (the rebalancing tick, the GC) aborts that round of maintenance: queued requests then depend on
+    # luck (e.g. the idle-connection GC minutes later).  Exceptions of the injected connect / disconnect failures never reach the loop's handler.
+    def on_loop_exception(lp, context):
+        exc = context.get('exception'); cb = str(context.get('handle') or context.get('future') or '')
+        if isinstance(exc, (ConnectFailed, DisconnectFailed, asyncio.CancelledError)) or exc is None: return
+        if not errors_seen: errors_seen.append('%r in %s' % (exc, cb[:120]))
+    errors_seen = []
+    loop.set_exception_handler(on_loop_exception)
     w = World(rnd, spec['maxcap'], spec['fail_rate'], spec['slow']); w.disc_fail_rate = spec.get('disc_fail_rate', 0.0); stats = dict(started=0, served=0, reported_failure=0)
     try:
         loop.run_until_complete(scenario(loop, rnd, w, spec, stats))
@@ -162,6 +192,8 @@ def run_one(seed, spec=None):
             loop.run_until_complete(asyncio.sleep(0))
         except Exception: pass
         loop.close()
+    if errors_seen and not w.failure:
+        w.fail('C16 liveness', 'a maintenance callback of the pool died while requests were queued (they were served only later, if at all): %s' % errors_seen[0])
     return w, stats, spec
 
 # fixed patterns known to be delicate (pending connects when the tick fires; more databases than connections; discards under pressure)
@@ -175,6 +207,11 @@ def patterns():
     yield dict(maxcap=1, clients=[(0.0, 'a', 0.0, False), (0.002, 'b', 0.0, False), (0.004, 'a', 0.0, False)], prunes=[(0.001, 'a')], slow=[0.0], fail_rate=0.0, gc=120.0, horizon=600.0)
     yield dict(maxcap=2, clients=[(0.0, 'tpl', 0.0, False), (0.6, 'A', 0.0002, False), (0.6, 'A', 0.0002, False), (0.601, 'tpl', 0.0, False)], prunes=[(0.5, 'tpl')],
                slow=[0.0], fail_rate=0.0, gc=120.0, horizon=600.0)
+    # the same as one server task would do it, step by step: use and prune a database, fill the pool with idle connections of another one, ask for the first again
+    yield dict(maxcap=2, clients=[], script=[('acq', 't0', 'tpl'), ('rel', 't0'), ('sleep', 1.0), ('prune', 'tpl'), ('acq', 'a1', 'A'), ('acq', 'a2', 'A'), ('rel', 'a1'), ('rel', 'a2'),
+                                              ('bg', 't1', 'tpl'), ('wait', 't1')], slow=[0.0], fail_rate=0.0, gc=120.0, horizon=600.0)
+    yield dict(maxcap=2, clients=[], script=[('acq', 't0', 'tpl'), ('rel', 't0'), ('sleep', 1.0), ('prune', 'tpl'), ('acq', 'a1', 'A'), ('acq', 'a2', 'A'), ('bg', 't1', 'tpl'),
+                                              ('sleep', 0.05), ('rel', 'a1'), ('sleep', 0.05), ('rel', 'a2'), ('wait', 't1')], slow=[0.0], fail_rate=0.0, gc=120.0, horizon=600.0)
     yield dict(maxcap=1, clients=[(0.0, 'tpl', 0.0, False), (0.6, 'A', 0.0002, False), (0.601, 'tpl', 0.0, False)], prunes=[(0.5, 'tpl')], slow=[0.0], fail_rate=0.0, gc=120.0, horizon=600.0)
     # a lone request for a database without connections arrives at a pool whose whole capacity idles in another block (only the tick can move it)
     yield dict(maxcap=2, clients=[(0.0, 'a', 0.0, False), (0.0, 'a', 0.0, False), (0.5, 'b', 0.0, False)], slow=[0.0], fail_rate=0.0, gc=120.0, horizon=600.0)
